@@ -133,7 +133,7 @@ instance (w : World) : Decidable (LinkLookupHarmless w) := by unfold LinkLookupH
 theorem cur_flags : cur = ⟨true, true, true, true, true, false, false, false, true⟩ := rfl
 
 theorem statMatches_self (s : StatKey) : statMatches s s = true := by
-  simp [statMatches]
+  simp [statMatches, statMatchesWith]
 
 theorem entryDiffers_iff (h : Entry) (i : IEntry) : entryDiffers h i = true ↔ h ≠ i.entry := by
   have e1 : Gen.WorkTree.stagedCmpSha = true := rfl
